@@ -22,7 +22,7 @@ package fingerprint
 //@   preserves $RUNDATA
 //@ func (SourcesCheckable).IsUpToDate
 //@   trusted
-//@   modifies heap
+//@   modifies heap, fs_exists, fs_ver
 //@   preserves $RUNDATA
 
 //@ func WithMethod
@@ -39,10 +39,10 @@ package fingerprint
 //@   pure allocates
 //@ func (SourcesCheckable).OnError
 //@   trusted
-//@   modifies heap
+//@   modifies heap, fs_exists, fs_ver
 //@   preserves $RUNDATA
 //@ func IsTaskUpToDate
-//@   modifies heap
+//@   modifies heap, fs_exists, fs_ver
 //@   preserves $RUNDATA
 //@   blocks
 //@   site (StatusCheckable).IsUpToDate#1 ghost stSaid := result.0 && result.1 == nil
@@ -53,3 +53,57 @@ package fingerprint
 //@   ensures result.0 && len(t.Sources) != 0 ==> srcSaid                                         [C05,C04]
 //@   ensures result.1 == nil && (len(t.Status) != 0 || len(t.Sources) != 0)
 //@           && (len(t.Status) == 0 || stSaid) && (len(t.Sources) == 0 || srcSaid) ==> result.0  [C05]
+
+// ---- C04 / C12: fingerprint state on disk -------------------------------------------------------------
+// cksumPath / stampPath: the state file of a task for the two methods (functions of checker and task).
+//@ ghost func cksumPath(c *ChecksumChecker, t *ast.Task) string
+//@ ghost func stampPath(c *TimestampChecker, t *ast.Task) string
+
+//@ func (*ChecksumChecker).checksumFilePath
+//@   trusted
+//@   pure
+//@   ensures result == cksumPath(checker, t)
+//@ func (*TimestampChecker).timestampFilePath
+//@   trusted
+//@   pure
+//@   ensures result == stampPath(checker, t)
+
+//@ func Globs
+//@   modifies heap
+//@   preserves $RUNDATA
+//@ func glob
+//@   modifies heap
+//@   preserves $RUNDATA
+//@ func (*ChecksumChecker).checksum
+//@   modifies heap
+//@   preserves $RUNDATA                                                                              [C12]
+
+// A dry checker never touches the disk; a real one writes nothing but its own state file.
+//@ func (*ChecksumChecker).IsUpToDate
+//@   modifies heap, fs_exists, fs_ver
+//@   preserves $RUNDATA
+//@   ensures checker.dry ==> unchanged(fs_exists) && unchanged(fs_ver)                               [C12,C04]
+//@ func (*TimestampChecker).IsUpToDate
+//@   modifies heap, fs_exists, fs_ver
+//@   preserves $RUNDATA
+//@   ensures checker.dry ==> unchanged(fs_exists) && unchanged(fs_ver)                               [C12,C04]
+
+// After a failed run the record that would let the next run skip the task must be gone.
+//@ func (*ChecksumChecker).OnError
+//@   modifies heap, fs_exists, fs_ver
+//@   preserves $RUNDATA
+//@   ensures result == nil && len(t.Sources) != 0 ==> !fs_exists(cksumPath(checker, t))             [C04]
+//@ func (*TimestampChecker).OnError
+//@   modifies heap, fs_exists, fs_ver
+//@   preserves $RUNDATA
+//@   ensures result == nil && len(t.Sources) != 0 ==> !fs_exists(stampPath(recv, t))                [C04]
+
+//@ func NewChecksumChecker
+//@   pure allocates
+//@   ensures result.dry == dry && result.tempDir == tempDir                                           [C12]
+//@ func NewTimestampChecker
+//@   pure allocates
+//@   ensures result.dry == dry && result.tempDir == tempDir                                           [C12]
+//@ func WithDry$1
+//@   modifies config.dry
+//@   ensures config.dry == dry                                                                        [C12]
